@@ -953,3 +953,28 @@ Theorem C17_bf_rules_denote : forall size a b,
     encode_bitfield ShLsl size a b ].
 Proof. exact bf_rules_denote. Qed.
 Print Assumptions C17_bf_rules_denote.
+
+(* ---------------------------------------------------------------------------------------------------------------- *)
+(* round 7: completeness directions for the fixed Thumb-2 branch formats and A32 BLX -- every representable displacement is
+   accepted and the word produced decodes to it *)
+From Verif Require Import Codec.CompleteMoreProofs.
+
+Theorem C17_t32_b_complete : forall f o, is_t32_b_fmt f -> - 2 ^ (bits f - 1) <= o < 2 ^ (bits f - 1) ->
+  exists m, encode_offset_fixed f (o * 2 ^ discard f) = Some m /\ decode_t32_b m = o.
+Proof. exact t32_b_complete. Qed.
+Print Assumptions C17_t32_b_complete.
+
+Theorem C17_t32_blx_complete : forall f o, is_t32_blx_fmt f -> - 2 ^ (bits f - 1) <= o < 2 ^ (bits f - 1) ->
+  exists m, encode_offset_fixed f (o * 2 ^ discard f) = Some m /\ decode_t32_b m = 2 * o.
+Proof. exact t32_blx_complete. Qed.
+Print Assumptions C17_t32_blx_complete.
+
+Theorem C17_t32_bcond_complete : forall f o, is_t32_bcond_fmt f -> - 2 ^ 19 <= o < 2 ^ 19 ->
+  exists m, encode_offset_fixed f (o * 2 ^ discard f) = Some m /\ decode_t32_bcond m = o.
+Proof. exact t32_bcond_complete. Qed.
+Print Assumptions C17_t32_bcond_complete.
+
+Theorem C17_a32_blx_complete : forall f o, is_a32_blx_fmt f -> - 2 ^ 24 <= o < 2 ^ 24 ->
+  exists m, encode_offset f (o * 2 ^ discard f) = Some m /\ decode_a32_blx m = o.
+Proof. exact a32_blx_complete. Qed.
+Print Assumptions C17_a32_blx_complete.
